@@ -272,7 +272,16 @@ func VerifC10_K1b(v *VerifV) {
 		case 2:
 			off := []int{0, 1, 32, 39, 100}[v.Choice("data-offset", 5)]
 			n := []int{0, 1, 32}[v.Choice("copy-len", 3)]
-			code = append(code, byte(PUSH1), byte(n), byte(PUSH1), byte(off), byte(PUSH1), 0, byte(CALLDATACOPY), byte(PUSH1), 0, byte(MLOAD))
+			ow := verifWSmall(off)
+			if v.Choice("huge-offset", 2) == 1 {
+				// an offset that does not fit 64 bits is past the end of any call data: zeros are copied
+				ow[5] = v.U8("high-byte")
+				v.Assume(ow[5] != 0)
+				off = 150
+			}
+			code = append(code, byte(PUSH1), byte(n))
+			code = verifPushW(code, ow[:])
+			code = append(code, byte(PUSH1), 0, byte(CALLDATACOPY), byte(PUSH1), 0, byte(MLOAD))
 			copy(want[:n], padded[off:off+n])
 			v.Cover("calldatacopy")
 		}
